@@ -153,4 +153,15 @@ pub open spec fn spec_hincrby(ds: DS, db: int, k: Seq<u8>, f: Vec<u8>, inc: i64)
         Some(_) => (RV::WrongType, ds),
     }
 }
+// ---- SET with options (shared by the server.rs handler unit and the executor arm unit)
+pub type TTL = Map<(int, Seq<u8>), int>;
+/// options accumulated so far: requested TTL in ns, NX, XX
+pub struct SetOpts { pub exp: Option<int>, pub nx: bool, pub xx: bool }
+/// what SET does once its options are known
+pub open spec fn spec_set(ds: DS, ttl: TTL, db: int, k: Seq<u8>, v: Seq<u8>, o: SetOpts) -> (RV, DS, TTL) {
+    let stored = (RV::Okay, ds.insert((db, k), DV::Str(v)), match o.exp { Some(n) => ttl.insert((db, k), n), None => ttl.remove((db, k)) });
+    if o.nx { if ds.contains_key((db, k)) { (RV::Bulk(None), ds, ttl) } else { stored } }
+    else if o.xx { if ds.contains_key((db, k)) { stored } else { (RV::Bulk(None), ds, ttl) } }
+    else { stored }
+}
 }
